@@ -1,7 +1,7 @@
 #!/venv/bin/python
 """mk_benign_tasks.py <batch-dir> <first-number> <flavour>: worktrees and TASK.md files for behaviour-preserving refactors.
 flavour: 'cleanup' (renames, extracted helpers, control flow) or 'perf' (caching, precomputation, fewer passes, local
-aliases, comprehension rewrites, lazy evaluation) or 'modern' (f-strings, dataclass-like helpers, pathlib-free os.path
+aliases, comprehension rewrites, lazy evaluation) or 'robust' (messages, hints, reprs, validation of what already failed) or 'modern' (f-strings, dataclass-like helpers, pathlib-free os.path
 rewrites, typing clean-ups, early returns, enum lookups)."""
 import json, os, subprocess, sys
 
@@ -23,6 +23,7 @@ areas = [
 kinds = {
     "cleanup": "renaming private attributes/helpers/modules, extracting or inlining helper functions, restructuring control flow, moving a private function to another private module",
     "perf": "a performance-motivated change: caching or precomputing something that cannot be observed, doing one pass instead of two, hoisting loop invariants, replacing repeated attribute lookups by locals, building strings with join instead of repeated writes, using bisect/heapq/itertools differently but equivalently, lazy evaluation whose laziness cannot be observed",
+    "robust": "a defensive or ergonomic change that leaves every documented behaviour alone: clearer exception messages (same exception classes raised in the same situations), docstring and type-hint edits, a __repr__ for a class that lacks one, tidying __all__ or __slots__, internal assertions that cannot fire on valid states, accepting os.PathLike where str paths are accepted, argument validation that only rejects what already failed (with the same exception class), reordering independent statements",
     "modern": "a modernisation: f-strings, early returns, enum/dict dispatch instead of if/elif chains, typing clean-ups, small private dataclass/NamedTuple helpers, comprehension rewrites, removing dead code, replacing mutable default arguments safely",
 }
 os.makedirs(base, exist_ok=True)
